@@ -122,14 +122,20 @@ func keyToPublic(pk key.Key) (*goecdsa.PublicKey, error) {
 		if err != nil {
 			return nil, err
 		}
-		compressed := make([]byte, 1+len(x))
+		size := (curve.Params().BitSize + 7) / 8
+		if len(x) > size {
+			return nil, fmt.Errorf("cose/key/ecdsa: KeyToPublic: invalid parameter x")
+		}
+		compressed := make([]byte, 1+size)
 		if boolY {
 			compressed[0] = 0x03
 		} else {
 			compressed[0] = 0x02
 		}
-		copy(compressed[1:], x)
-		ix, iy = elliptic.UnmarshalCompressed(curve, compressed)
+		copy(compressed[1+size-len(x):], x)
+		if ix, iy = elliptic.UnmarshalCompressed(curve, compressed); ix == nil {
+			return nil, fmt.Errorf("cose/key/ecdsa: KeyToPublic: (x, y) not on the curve")
+		}
 	}
 
 	if !curve.IsOnCurve(ix, iy) {
